@@ -51,10 +51,26 @@ def rows_of(cat):
     return out
 
 
-def loaders(path):
+def loaders(path, n=None):
     import csep
     from csep.core.catalogs import CSEPCatalog
-    return (("load_ascii_catalogs", lambda: list(CSEPCatalog.load_ascii_catalogs(path))),
+
+    def third_pass():
+        # the file is decoded anew on every pass of a forecast that does not store its catalogs: the third pass like the first
+        fc = csep.load_catalog_forecast(path, store=False)
+        for _ in range(2):
+            for _c in fc:
+                pass
+        return [c for c in fc]
+
+    def second_pass_known_size():
+        fc = csep.load_catalog_forecast(path, n_cat=n)
+        for _c in fc:
+            pass
+        return [c for c in fc]
+    extra = (("load_catalog_forecast:third_pass_without_store", third_pass),) + \
+            ((("load_catalog_forecast:second_pass_with_n_cat_given", second_pass_known_size),) if n else ())
+    return extra + (("load_ascii_catalogs", lambda: list(CSEPCatalog.load_ascii_catalogs(path))),
             ("load_stochastic_event_sets", lambda: list(csep.load_stochastic_event_sets(path, type="csv"))),
             ("load_stochastic_event_sets:format_csep", lambda: list(csep.load_stochastic_event_sets(path, type="csv", format="csep"))),
             ("load_catalog_forecast", lambda: [c for c in csep.load_catalog_forecast(path)]))
@@ -96,7 +112,7 @@ def check_case(ctx, case):
                 elif not isinstance(o.exc, ValueError):
                     ctx.unexpected(o, "negative:" + name)
             return
-        for name, f in loaders(as_path(case, path)):
+        for name, f in loaders(as_path(case, path), n):
             o = call(f)
             if not o.ok:
                 ctx.unexpected(o, name + (":pathlib" if case.get("pathlib") else ""))
